@@ -322,7 +322,7 @@ def world_for(prop, tier, seed, idx):
         w["prelude"] = pre
     if prop in ("C11", "C09"):
         w["faults"] = _faults(r, hint, box, ["opt_teleport", "opt_teleport", "opt_teleport", "opt_teleport", "grad_huge", "opt_signflip"], p_none=0.2)
-    else:
+    if prop == "C18":
         w["faults"] = []
         if r.random() < 0.35:  # perturbed parameters: one early teleport of modest size
             w["faults"] = [{"step": r.choice([0, 1, 2]), "kind": "opt_teleport", "seed": r.randrange(2**30), "scale": r.choice([0.5, 2.0])}]
